@@ -298,9 +298,12 @@ class SigmaString(SigmaType):
                     )  # append everything from end of last placeholder until end of string (if not empty) to result string
             else:  # special characters are passed to the result
                 res.append(part)
-        self.s = res  # finally replace the string with the result
-
-        return self
+        # The result is a new string: the given one may be the original value of a detection item
+        # that is kept for conversion back into a plain data structure.
+        result = self.__class__()
+        result.s = res
+        result.original = self.original
+        return result
 
     def replace_with_placeholder(
         self, regex: re.Pattern[str], placeholder_name: str
